@@ -84,7 +84,9 @@ def text_tokens(kind, n, seed):
     out = []
     for i in range(n):
         k = i + 1 + b
-        if kind == "int":
+        if kind == "gap":
+            t = "" if i == 1 else f"{k}.5"           # the second cell of the first row is empty
+        elif kind == "int":
             t = str(k)
         elif kind == "frac":
             t = f"{k}.{(25 * (i + 1)) % 1000:03d}".rstrip("0") if (i % 2) else f"0.{125 * (k % 7 + 1)}"
@@ -202,7 +204,8 @@ def _same(got, exp):
     if got is None or exp is None:
         return got is None and exp is None
     got = np.asarray(got)
-    return got.shape == tuple(exp.shape) and bool(np.array_equal(got.astype("float64"), np.asarray(exp, "float64")))
+    return got.shape == tuple(exp.shape) and bool(np.array_equal(got.astype("float64"), np.asarray(exp, "float64"),
+                                                                 equal_nan=True))
 
 
 def _txt(a):
@@ -234,6 +237,13 @@ def _fmt_cases(tier):
                                   "reader": rd})
         cases.append({"part": "fmt", "shape": list(shape), "kind": "float64", "ext": ".fits", "sep": None,
                       "reader": "fits-table"})
+        # text tables with an EMPTY cell (how a missing value is written): the cell is "not a number", its neighbours stay
+        # in their columns
+        if shape == (2, 3):
+            for ext in (".txt", ".csv"):
+                for sep in SEPS:
+                    cases.append({"part": "fmt", "shape": list(shape), "kind": "gap", "ext": ext, "sep": sep,
+                                  "reader": "table"})
         # FITS files whose primary HDU is empty and whose image sits in the first extension (multi-extension files)
         for rd in ("image", "m-image", "m-charge"):
             cases.append({"part": "fmt", "shape": list(shape), "kind": "float64", "ext": ".fits", "sep": None,
@@ -249,7 +259,7 @@ def _n_fmt(tier):
         per_shape += 5 * (2 + (0 if tier == "quick" else mimg + 1))       # .data
         per_shape += 5                                                    # .csv
     per_shape += len(BIN_DTYPES) * (4 + 3) + 1 + 3
-    return per_shape * len(FMT_SHAPES)
+    return per_shape * len(FMT_SHAPES) + 2 * 5
 
 
 def _run_fmt(case):
@@ -272,7 +282,7 @@ def _run_fmt(case):
         if case["sep"] is not None:
             toks = text_tokens(case["kind"], n, seed)
             write_text(path, toks, shape, SEPS[case["sep"]])
-            exp = np.array([float(t) for t in toks], dtype="float64").reshape(shape)
+            exp = np.array([float(t) if t else np.nan for t in toks], dtype="float64").reshape(shape)
             shown = toks
         elif rd == "fits-table":
             from astropy.table import Table
@@ -524,7 +534,13 @@ class HistModel:
             nwrites = 0
             nold = 0
             name, name2 = path, other                   # what the library is given
-            if self.style != "abs":
+            if self.style == "link":
+                # `path` is a symbolic link that is re-pointed to a NEW file by every write; the library receives a
+                # pathlib.Path
+                import pathlib
+
+                name, name2 = pathlib.Path(path), pathlib.Path(other)
+            elif self.style != "abs":
                 name, name2 = os.path.basename(path), os.path.basename(other)
                 if self.style == "cwd":
                     os.chdir(d)
@@ -539,13 +555,31 @@ class HistModel:
                 os.utime(path, ns=(t, t))
                 nwrites += 1
 
-            _write(path, version_array("A", seed), self.ext)
+            nlinks = [0]
+
+            def relink(arr):
+                """write `arr` into a new file and atomically re-point the link `path` to it"""
+                nlinks[0] += 1
+                target = os.path.join(d, f"version{nlinks[0]:03d}" + self.ext)
+                _write(target, arr, self.ext)
+                tmp_link = path + ".lnk"
+                os.symlink(target, tmp_link)
+                os.replace(tmp_link, path)
+
+            if self.style == "link":
+                relink(version_array("A", seed))
+            else:
+                _write(path, version_array("A", seed), self.ext)
             stamp()
             for op in hist:
                 try:
                     if self.style == "wd":          # running modes (re)set the option from their own argument
                         pyxel.set_options(working_directory=d)
-                    if op[0] == "w":
+                    if self.style == "link" and op[0] in ("w", "rn", "rno"):
+                        relink(version_array(op[1], seed))
+                        stamp()
+                        outs.append(None)
+                    elif op[0] == "w":
                         _write(path, version_array(op[1], seed), self.ext)
                         stamp()
                         outs.append(None)
@@ -671,7 +705,7 @@ def _hist_shards(tier, seed):
             d = 4 if tier == "quick" else (5 if ext == ".npy" else 4)
             out.append({"part": "hist", "ext": ext, "tier": tier, "seed": seed, "prefix": [op], "depth": d - 1})
     # the same histories with the path given relative to the current directory / to pyxel's working_directory
-    for style in ("wd", "cwd"):
+    for style in ("wd", "cwd", "link"):
         m = HistModel(".npy", tier, style=style)
         for op in m._ops:
             out.append({"part": "hist", "ext": ".npy", "tier": tier, "seed": seed, "prefix": [op], "style": style,
